@@ -129,4 +129,234 @@ theorem isHnf_sound' (m n : Nat) (H : Mat) (h : isHnf m n H = true) :
       rw [pow_two, pow_two]
       exact this
 
+/-! ### LLL-reducedness -/
+
+/-- `(bs, mu)` is the Gram–Schmidt decomposition of the (independent) rows of `B`:
+`b_i = b*_i + Σ_{j<i} μ_ij b*_j`, the `b*_i` pairwise orthogonal and non-zero. -/
+structure IsGS (m n : Nat) (B : Nat → Nat → Int) (bs mu : Nat → Nat → ℚ) : Prop where
+  decomp : ∀ i < m, ∀ c < n, (B i c : ℚ) = bs i c + ∑ j ∈ range i, mu i j * bs j c
+  orth : ∀ i < m, ∀ j < i, ∑ c ∈ range n, bs i c * bs j c = 0
+  pos : ∀ i < m, 0 < ∑ c ∈ range n, bs i c * bs i c
+
+/-- size-reduced and Lovász with constant `α` -/
+def IsLLLReduced (m n : Nat) (B : Nat → Nat → Int) (α : ℚ) : Prop :=
+  ∃ bs mu : Nat → Nat → ℚ, IsGS m n B bs mu ∧
+    (∀ i < m, ∀ j < i, |mu i j| ≤ 1 / 2) ∧
+    (∀ k, 0 < k → k < m →
+      (α - mu k (k - 1) ^ 2) * (∑ c ∈ range n, bs (k - 1) c * bs (k - 1) c) ≤ ∑ c ∈ range n, bs k c * bs k c)
+
+theorem reducedWith_sound (m n : Nat) (B : Mat) (p q : Int) (bs mu : QMat)
+    (h : reducedWith m n B p q bs mu = true) :
+    IsGS m n (ent B) (entQ bs) (entQ mu) ∧
+    (∀ i < m, ∀ j < i, |entQ mu i j| ≤ 1 / 2) ∧
+    (∀ k, 0 < k → k < m →
+      ((p : ℚ) / (q : ℚ) - entQ mu k (k - 1) ^ 2) * (∑ c ∈ range n, entQ bs (k - 1) c * entQ bs (k - 1) c)
+        ≤ ∑ c ∈ range n, entQ bs k c * entQ bs k c) := by
+  simp only [reducedWith, allLt_iff, Bool.and_eq_true, Bool.or_eq_true, decide_eq_true_eq, beq_iff_eq,
+    sumLtQ_eq] at h
+  obtain ⟨⟨⟨⟨h1, h2⟩, h3⟩, h4⟩, h5⟩ := h
+  refine ⟨⟨h1, h2, h3⟩, ?_, ?_⟩
+  · intro i hi j hj
+    rw [abs_le]
+    exact h4 i hi j hj
+  · intro k hk0 hk
+    rcases h5 k hk with h | h
+    · omega
+    · rw [pow_two]; exact h
+
+/-! ### the row primitives keep `target = P·A` and `P·P⁻¹ = I` -/
+
+/-- the transposition of `i` and `j` -/
+def sw (i j r : Nat) : Nat := if r = i then j else if r = j then i else r
+
+theorem sw_lt {m i j r : Nat} (hi : i < m) (hj : j < m) (hr : r < m) : sw i j r < m := by
+  unfold sw; split_ifs <;> omega
+
+theorem sw_inj (i j r c : Nat) : sw i j r = sw i j c ↔ r = c := by
+  unfold sw; split_ifs <;> omega
+
+/-- Kronecker delta -/
+def kron (r c : Nat) : Int := if r = c then 1 else 0
+
+/-- invariant of the transform part of `LLLData` w.r.t. the input matrix `A` -/
+structure Tr.Inv (A : Mat) (t : Tr) : Prop where
+  pa : PAeq t.m t.m t.n (ent t.p) (ent A) (ent t.target)
+  pp : PAeq t.m t.m t.m (ent t.p) (ent t.pinv) kron
+
+theorem assert_bind {β : Type} (c : Bool) (f : Unit → Res β) (b : β) :
+    (Res.assert c >>= f) = ok b ↔ c = true ∧ f () = ok b := by
+  cases c <;> simp [Res.assert]
+
+theorem bind_eq_ok {α β : Type} (x : Res α) (f : α → Res β) (b : β) :
+    (x >>= f) = ok b ↔ ∃ a, x = ok a ∧ f a = ok b := by
+  cases x <;> simp
+
+theorem Tr.init_inv (m n : Nat) (A : Mat) : (Tr.init m n A).Inv A := by
+  constructor
+  · intro r (hr : r < m) c (hc : c < n)
+    show ∑ k ∈ range m, ent (idMat m) r k * ent A k c = ent (mkMat m n (ent A)) r c
+    rw [ent_mkMat _ hr hc, Finset.sum_congr rfl (fun k hk => by rw [ent_idMat hr (mem_range.mp hk)])]
+    simp [hr]
+  · intro r (hr : r < m) c (hc : c < m)
+    show ∑ k ∈ range m, ent (idMat m) r k * ent (idMat m) k c = _
+    rw [Finset.sum_congr rfl (fun k hk => by rw [ent_idMat hr (mem_range.mp hk), ent_idMat (mem_range.mp hk) hc])]
+    simp [kron] <;> omega
+
+theorem Tr.swapRows_inv (A : Mat) (t t' : Tr) (i j : Nat) (h : t.swapRows i j = ok t') (hI : t.Inv A) :
+    t'.Inv A ∧ t'.m = t.m ∧ t'.n = t.n := by
+  unfold Tr.swapRows at h
+  rw [assert_bind] at h
+  obtain ⟨hc, h⟩ := h
+  simp only [Bool.and_eq_true, decide_eq_true_eq] at hc
+  obtain ⟨hi, hj⟩ := hc
+  simp only [pure_eq, Res.ok.injEq] at h
+  subst h
+  refine ⟨⟨?_, ?_⟩, rfl, rfl⟩
+  · intro r hr c hc
+    show ∑ k ∈ range t.m, ent (mSwapRows t.m t.m t.p i j) r k * ent A k c = ent (mSwapRows t.m t.n t.target i j) r c
+    rw [Finset.sum_congr rfl (fun k hk => by rw [mSwapRows, ent_mkMat _ hr (mem_range.mp hk)])]
+    rw [mSwapRows, ent_mkMat _ hr hc]
+    exact hI.pa (sw i j r) (sw_lt hi hj hr) c hc
+  · intro r hr c hc
+    show ∑ k ∈ range t.m, ent (mSwapRows t.m t.m t.p i j) r k * ent (mSwapCols t.m t.m t.pinv i j) k c = _
+    rw [Finset.sum_congr rfl (fun k hk => by
+      rw [mSwapRows, ent_mkMat _ hr (mem_range.mp hk), mSwapCols, ent_mkMat _ (mem_range.mp hk) hc])]
+    have := hI.pp (sw i j r) (sw_lt hi hj hr) (sw i j c) (sw_lt hi hj hc)
+    simp only [kron, sw_inj] at this
+    exact this
+
+theorem isUnitZ_sq {u : Int} (h : isUnitZ u = true) : u * u = 1 := by
+  simp only [isUnitZ, Bool.or_eq_true, beq_iff_eq] at h
+  rcases h with h | h
+  · subst h; rfl
+  · have : u = -1 := by omega
+    subst this; rfl
+
+theorem Tr.mulRow_inv (A : Mat) (t t' : Tr) (i : Nat) (u : Int) (h : t.mulRow i u = ok t') (hI : t.Inv A) :
+    t'.Inv A ∧ t'.m = t.m ∧ t'.n = t.n := by
+  unfold Tr.mulRow at h
+  rw [assert_bind] at h
+  obtain ⟨hu, h⟩ := h
+  rw [assert_bind] at h
+  obtain ⟨_, h⟩ := h
+  simp only [pure_eq, Res.ok.injEq] at h
+  subst h
+  have huu := isUnitZ_sq hu
+  refine ⟨⟨?_, ?_⟩, rfl, rfl⟩
+  · intro r hr c hc
+    show ∑ k ∈ range t.m, ent (mMulRow t.m t.m t.p i u) r k * ent A k c = ent (mMulRow t.m t.n t.target i u) r c
+    rw [Finset.sum_congr rfl (fun k hk => by rw [mMulRow, ent_mkMat _ hr (mem_range.mp hk)])]
+    rw [mMulRow, ent_mkMat _ hr hc]
+    have e := hI.pa r hr c hc
+    by_cases hri : r = i
+    · rw [if_pos hri, ← e, Finset.sum_mul]
+      exact Finset.sum_congr rfl (fun k _ => by rw [if_pos hri]; ring)
+    · rw [if_neg hri, ← e]
+      exact Finset.sum_congr rfl (fun k _ => by rw [if_neg hri])
+  · intro r hr c hc
+    show ∑ k ∈ range t.m, ent (mMulRow t.m t.m t.p i u) r k * ent (mMulCol t.m t.m t.pinv i u) k c = _
+    rw [Finset.sum_congr rfl (fun k hk => by
+      rw [mMulRow, ent_mkMat _ hr (mem_range.mp hk), mMulCol, ent_mkMat _ (mem_range.mp hk) hc])]
+    have e1 := hI.pp r hr c hc
+    by_cases hri : r = i <;> by_cases hci : c = i
+    · rw [Finset.sum_congr rfl (fun k _ => show (if r = i then ent t.p r k * u else ent t.p r k)
+          * (if c = i then ent t.pinv k c * u else ent t.pinv k c)
+        = (u * u) * (ent t.p r k * ent t.pinv k c) by rw [if_pos hri, if_pos hci]; ring),
+        ← Finset.mul_sum, e1, huu, one_mul]
+    · have hrc : r ≠ c := by omega
+      rw [Finset.sum_congr rfl (fun k _ => show (if r = i then ent t.p r k * u else ent t.p r k)
+          * (if c = i then ent t.pinv k c * u else ent t.pinv k c)
+        = u * (ent t.p r k * ent t.pinv k c) by rw [if_pos hri, if_neg hci]; ring),
+        ← Finset.mul_sum, e1, kron, if_neg hrc, mul_zero]
+    · have hrc : r ≠ c := by omega
+      rw [Finset.sum_congr rfl (fun k _ => show (if r = i then ent t.p r k * u else ent t.p r k)
+          * (if c = i then ent t.pinv k c * u else ent t.pinv k c)
+        = u * (ent t.p r k * ent t.pinv k c) by rw [if_neg hri, if_pos hci]; ring),
+        ← Finset.mul_sum, e1, kron, if_neg hrc, mul_zero]
+    · rw [Finset.sum_congr rfl (fun k _ => show (if r = i then ent t.p r k * u else ent t.p r k)
+          * (if c = i then ent t.pinv k c * u else ent t.pinv k c)
+        = ent t.p r k * ent t.pinv k c by rw [if_neg hri, if_neg hci]), e1]
+
+theorem Tr.addRowTo_inv (A : Mat) (t t' : Tr) (i k : Nat) (r0 : Int) (h : t.addRowTo i k r0 = ok t')
+    (hI : t.Inv A) : t'.Inv A ∧ t'.m = t.m ∧ t'.n = t.n := by
+  unfold Tr.addRowTo at h
+  rw [assert_bind] at h
+  obtain ⟨hik, h⟩ := h
+  rw [assert_bind] at h
+  obtain ⟨hk, h⟩ := h
+  simp only [decide_eq_true_eq] at hik hk
+  simp only [pure_eq, Res.ok.injEq] at h
+  subst h
+  have him : i < t.m := lt_trans hik hk
+  refine ⟨⟨?_, ?_⟩, rfl, rfl⟩
+  · intro r hr c hc
+    show ∑ l ∈ range t.m, ent (mAddRowTo t.m t.m t.p i k r0) r l * ent A l c
+      = ent (mAddRowTo t.m t.n t.target i k r0) r c
+    rw [Finset.sum_congr rfl (fun l hl => by rw [mAddRowTo, ent_mkMat _ hr (mem_range.mp hl)])]
+    rw [mAddRowTo, ent_mkMat _ hr hc]
+    by_cases hrk : r = k
+    · rw [if_pos hrk, ← hI.pa r hr c hc, ← hI.pa i him c hc, Finset.sum_mul, ← Finset.sum_add_distrib]
+      exact Finset.sum_congr rfl (fun l _ => by rw [if_pos hrk]; ring)
+    · rw [if_neg hrk, ← hI.pa r hr c hc]
+      exact Finset.sum_congr rfl (fun l _ => by rw [if_neg hrk])
+  · intro r hr c hc
+    show ∑ l ∈ range t.m, ent (mAddRowTo t.m t.m t.p i k r0) r l * ent (mAddColTo t.m t.m t.pinv k i (-r0)) l c = _
+    rw [Finset.sum_congr rfl (fun l hl => by
+      rw [mAddRowTo, ent_mkMat _ hr (mem_range.mp hl), mAddColTo, ent_mkMat _ (mem_range.mp hl) hc])]
+    have e1 := hI.pp r hr c hc
+    have e2 := hI.pp i him c hc
+    have e3 := hI.pp r hr k hk
+    have e4 := hI.pp i him k hk
+    have hik' : i ≠ k := by omega
+    by_cases hrk : r = k <;> by_cases hci : c = i
+    · have hrc : r ≠ c := by omega
+      have hri : r ≠ i := by omega
+      rw [Finset.sum_congr rfl (fun l _ => show
+          (if r = k then ent t.p r l + ent t.p i l * r0 else ent t.p r l)
+            * (if c = i then ent t.pinv l c + ent t.pinv l k * -r0 else ent t.pinv l c)
+          = ent t.p r l * ent t.pinv l c + r0 * (ent t.p i l * ent t.pinv l c)
+            - r0 * (ent t.p r l * ent t.pinv l k) - r0 * r0 * (ent t.p i l * ent t.pinv l k) by
+            rw [if_pos hrk, if_pos hci]; ring)]
+      rw [Finset.sum_sub_distrib, Finset.sum_sub_distrib, Finset.sum_add_distrib, ← Finset.mul_sum, ← Finset.mul_sum,
+        ← Finset.mul_sum, e1, e2, e3, e4]
+      simp only [kron, if_neg hrc, if_pos hci.symm, if_pos hrk, if_neg hik']
+      ring
+    · have hic : i ≠ c := fun h => hci h.symm
+      rw [Finset.sum_congr rfl (fun l _ => show
+          (if r = k then ent t.p r l + ent t.p i l * r0 else ent t.p r l)
+            * (if c = i then ent t.pinv l c + ent t.pinv l k * -r0 else ent t.pinv l c)
+          = ent t.p r l * ent t.pinv l c + r0 * (ent t.p i l * ent t.pinv l c) by
+            rw [if_pos hrk, if_neg hci]; ring)]
+      rw [Finset.sum_add_distrib, ← Finset.mul_sum, e1, e2, kron, kron, if_neg hic, mul_zero, add_zero]
+    · rw [Finset.sum_congr rfl (fun l _ => show
+          (if r = k then ent t.p r l + ent t.p i l * r0 else ent t.p r l)
+            * (if c = i then ent t.pinv l c + ent t.pinv l k * -r0 else ent t.pinv l c)
+          = ent t.p r l * ent t.pinv l c - r0 * (ent t.p r l * ent t.pinv l k) by
+            rw [if_neg hrk, if_pos hci]; ring)]
+      rw [Finset.sum_sub_distrib, ← Finset.mul_sum, e1, e3, kron, kron, if_neg hrk, mul_zero, sub_zero]
+    · rw [Finset.sum_congr rfl (fun l _ => show
+          (if r = k then ent t.p r l + ent t.p i l * r0 else ent t.p r l)
+            * (if c = i then ent t.pinv l c + ent t.pinv l k * -r0 else ent t.pinv l c)
+          = ent t.p r l * ent t.pinv l c by rw [if_neg hrk, if_neg hci]), e1]
+
+theorem Tr.apply_inv (A : Mat) (t t' : Tr) (op : Prim) (h : t.apply op = ok t') (hI : t.Inv A) :
+    t'.Inv A ∧ t'.m = t.m ∧ t'.n = t.n := by
+  cases op with
+  | swap i j => exact Tr.swapRows_inv A t t' i j h hI
+  | mul i u => exact Tr.mulRow_inv A t t' i u h hI
+  | add i k r => exact Tr.addRowTo_inv A t t' i k r h hI
+
+theorem Tr.run_inv (A : Mat) (ops : List Prim) : ∀ (t t' : Tr), t.run ops = ok t' → t.Inv A →
+    t'.Inv A ∧ t'.m = t.m ∧ t'.n = t.n := by
+  induction ops with
+  | nil => intro t t' h hI; simp only [Tr.run, pure_eq, Res.ok.injEq] at h; subst h; exact ⟨hI, rfl, rfl⟩
+  | cons op ops ih =>
+    intro t t' h hI
+    simp only [Tr.run] at h
+    rw [bind_eq_ok] at h
+    obtain ⟨t1, h1, h2⟩ := h
+    obtain ⟨hI1, hm1, hn1⟩ := Tr.apply_inv A t t1 op h1 hI
+    obtain ⟨hI2, hm2, hn2⟩ := ih t1 t' h2 hI1
+    exact ⟨hI2, hm2.trans hm1, hn2.trans hn1⟩
+
 end Yuiv.C10
